@@ -24,10 +24,10 @@ inductive Prim (U : Universe) : St → St → Prop
   | pop (s : St) (ev args : String) (q : List (String × String))
       (hq : s.queue = (ev, args) :: q) (he : s.enabled = true) :
       Prim U s { s with queue := q, released := s.released ++ [(ev, args)] }
-  | call (s : St) (r : Obj) (m args : String) (hs : List Obj) (k : Nat)
+  | call (s : St) (r : Obj) (m lm args : String) (hs : List Obj) (k : Nat)
       (halive : s.alive r = true) (hh : s.hints = r :: hs) :
       Prim U s { s with hints := hs, calls := Dict.set s.calls (r, m) (k + 1),
-                        pinned := r :: s.pinned, log := .cb (some r) m args :: s.log }
+                        pinned := r :: s.pinned, log := .cb (some r) lm args :: s.log }
   | unpin (s : St) (r : Obj) : Prim U s (unpin s r)
 
 abbrev Reach (U : Universe) := Star (Prim U)
@@ -117,8 +117,8 @@ theorem reach_all (U : Universe) (fuel : Nat) :
               have := List.find?_some hfind
               simpa using this
             subst hr
-            have c := Prim.call (U := U) s r m args hs ((Dict.get? s.calls (r, m)).getD 0) hal hh
-            have r1 := ihOps { s with hints := hs, calls := Dict.set s.calls (r, m) ((Dict.get? s.calls (r, m)).getD 0 + 1), pinned := r :: s.pinned, log := .cb (some r) m args :: s.log } (U.reaction r m ((Dict.get? s.calls (r, m)).getD 0))
+            have c := Prim.call (U := U) s r m (U.impl r m) args hs ((Dict.get? s.calls (r, m)).getD 0) hal hh
+            have r1 := ihOps { s with hints := hs, calls := Dict.set s.calls (r, m) ((Dict.get? s.calls (r, m)).getD 0 + 1), pinned := r :: s.pinned, log := .cb (some r) (U.impl r m) args :: s.log } (U.reaction r m ((Dict.get? s.calls (r, m)).getD 0))
             split
             · rename_i s' hx
               rw [hx] at r1
